@@ -20,7 +20,7 @@ func init() {
 		"Decides the structural clauses of exact, overflow-free deadlines on every enumerated path: each stored deadline is the saturating sum of the operation's clock sample and the duration the hook returned on that path (C12.sat); hooks are selected by the pre-state - create for absent/expired, update/reload with the live old value, failure hook on failed reloads, read hook once per counted read - and an expired predecessor's value is never passed on (C12.hook, and C12.loadread for the loading reads); a replacing node inherits its predecessor's deadlines first (C12.inherit); the deadline writers are exactly the known sites (C12.sites); HasExpired/IsFresh have the same boundary in every variant (C12.bound). "+
 			"NOT decided: numeric equality deadline = now + d on concrete runs.",
 		[]string{"xmath.SaturatedAdd saturates (checked by C12.satfn)", "user-supplied calculators are pure with respect to the cache (the built-in ones are decided by C12.calc)"},
-		ruleC12Hooks, ruleC12Sites, ruleC12Bound, ruleC12Apply, ruleC10Finisher, ruleC12LoadReads, ruleC12Calc, ruleC12Clock, ruleC01Config, ruleC03Deadline, ruleC03Filter)
+		ruleC12Hooks, ruleC12Sites, ruleC12Bound, ruleC12Apply, ruleC10Finisher, ruleC12LoadReads, ruleC12Calc, ruleC12Clock, ruleC01Config, ruleC03Deadline, ruleC03Filter, ruleXMath)
 }
 
 func init() {
